@@ -327,7 +327,7 @@ func (r Ring) Reversed() Ring {
 //	G1 one outer; G2 one outer + one hole; G3 one outer + two holes;
 //	G4 two outers; G5 two outers with a hole in each.
 //
-// Rings have 3 to 5 vertices, are stored in both windings across the
+// Rings have 3 to 5 vertices (G6: 8-vertex U shapes), are stored in both windings across the
 // catalogue, straddle the axes (vertices with lon == 0 or lat == 0 but never
 // both, negative coordinates), contain collinear vertices and concave
 // corners, and G4b puts the second outer inside the bounding box (the notch)
@@ -349,7 +349,16 @@ func Catalogue() []Truth {
 	notch := ring(1, 4, 3, 5, 1, 6)           // triangle in the notch of dart (outside dart)
 	notchCW := notch.Reversed()
 
+	// a U-shaped outer with a U-shaped hole running through both arms: the
+	// hole's bounding-box centre (25,25) lies in the notch, outside its outer
+	// and inside the small outer that sits in the notch
+	uOuter := ring(10, 10, 40, 10, 40, 40, 30, 40, 30, 20, 20, 20, 20, 40, 10, 40) // CCW
+	uHole := ring(12, 12, 38, 12, 38, 38, 32, 38, 32, 18, 18, 18, 18, 38, 12, 38)  // CCW (against the required winding)
+	uNotch := ring(23, 24, 27, 24, 25, 30)                                         // CCW triangle around (25,25)
+
 	ts := []Truth{
+		{Name: "G6-U-U", Polygons: []Polygon{{Outer: uOuter, Holes: []Ring{uHole.Reversed()}}}},
+		{Name: "G6-U-U-notch", Polygons: []Polygon{{Outer: uOuter.Reversed(), Holes: []Ring{uHole}}, {Outer: uNotch}}},
 		{Name: "G1-tri", Polygons: []Polygon{{Outer: tri}}},
 		{Name: "G1-quad-cw", Polygons: []Polygon{{Outer: quad.Reversed()}}},
 		{Name: "G1-pent", Polygons: []Polygon{{Outer: pent}}},
